@@ -654,7 +654,7 @@ def _usable_contour(rng, cls, n_dim, T):
 
 def _scenarios(rng, tier, T):
     scen = []
-    rep = 1 if tier == "quick" else 5
+    rep = 1 if tier == "quick" else 10
     # --- saving: all classes 2-D, three classes 3-D, x path kinds x semantics kinds
     for _ in range(rep):
         k = 0
